@@ -55,6 +55,9 @@ EXPECTED_PROBES = ["fill.day_clipped", "fill.weekday_moved",
                    "tz.unknown_warned", "tz.ignoretz", "fuzzy.sentence",
                    "fuzzy.tokens", "fuzzy.plain_same"]
 
+REAL = ['dateutil.parser, dateutil.tz (tzlocal, tzstr, tzoffset, UTC), relativedelta from /repo/src', 'glibc tzset/localtime/mktime under the real TZ variable (authority on local abbreviations and offsets)']
+STUB = ['wall clock (SimClock: default=None reads it)', 'the sequence of process-TZ settings (generated)']
+
 CLASSES = {
     "config": dict(quick=20000, thorough=500000, timeout=60),
 }
